@@ -656,6 +656,27 @@ def create(spec, yaw):
             return yaw.Catalog.from_file(spec["cache"], path, **kw)
         finally:
             os.unlink(path)
+    if spec["source"] == "parquet":
+        # a Parquet file written batch by batch: row groups of UNEQUAL sizes (drawn from the data seed), none aligned to the chunk size
+        import random
+        import pyarrow as pa
+        import pyarrow.parquet as pq
+        r = random.Random(spec["dseed"])
+        path = spec["cache"] + ".src.parquet"
+        tab = pa.table({k: np.asarray(v) for k, v in use.items()})
+        with pq.ParquetWriter(path, tab.schema) as wr:
+            cs = spec["cs"]
+            pattern = r.choice([None, [cs // 2 + 1, 1, 1, 1], [2, 1], [max(1, cs - 2), 1, 1], [cs + 1, 2, 1, 1, 1, 1]])
+            pos = k = 0
+            while pos < len(tab):
+                step = r.randrange(1, cs + 2) if pattern is None else pattern[k % len(pattern)]
+                wr.write_table(tab.slice(pos, step), row_group_size=step)
+                pos += step
+                k += 1
+        try:
+            return yaw.Catalog.from_file(spec["cache"], path, **kw)
+        finally:
+            os.unlink(path)
     raise ValueError(spec["source"])
 
 
